@@ -284,7 +284,7 @@ def model_of(pid, sc):
 def run(ctx):
     ctx.check_theorems("ActsModel.Props.C15")
     load_act_end(ctx)
-    n = 250 if ctx.tier == "quick" else 5000
+    n = 500 if ctx.tier == "quick" else 5000
     scs = [gen_scenario(ctx.seed, i, ctx.tier) for i in range(n)]
     results = ctx.harness("run", [{k: v for k, v in sc.items() if k not in ("calls", "pids")} for sc in scs])
     tot = Counter()
